@@ -14,13 +14,18 @@ ENGINE = 'E4 subprocess'
 TECHNIQUE = ('property-based testing, differential: the same generated two-endpoint program is executed twice in '
              'this process and once in each of two other interpreter processes started with different '
              'PYTHONHASHSEED values (and different fake wall clocks); per-step transcripts are compared')
-RULE = ('cases: the C01 program generator (calls on both endpoints incl. raising ones, header lists with str and '
-        'bytes names, multi-key settings updates, pushes, resets, chunked deliveries). Transcript per step = '
+RULE = ('cases: (a, three quarters) the C01 program generator (calls on both endpoints incl. raising ones, header lists with str and '
+        'bytes names, multi-key settings updates, pushes, resets, chunked deliveries); (b, one quarter) "fan" scenarios on one endpoint with 3..14 streams: header '
+        'blocks with up to six (repeated) cookie fields, multi-key SETTINGS incl. unknown identifiers, received DATA '
+        'partly acknowledged on every stream, an acknowledged INITIAL_WINDOW_SIZE change (every stream answers), '
+        'resets / trailers, clean-up, GOAWAY, and for clients constructed as H2Connection() a late change of their '
+        'own config.header_encoding. Transcript per step = '
         '(raised exception class and error code, emitted bytes, normalised events incl. header lists and changed '
         'settings, return value). The case runs in this process (PYTHONHASHSEED=0) twice and in two child '
         'interpreters (PYTHONHASHSEED=1 and 987654321, time.time/monotonic shifted by years, random reseeded); all '
         'four transcripts must be equal step by step. evaluations = executions (4 per case); non-trivial = the '
-        'program has at least 15 steps, a header block with 5 or more fields and a raising call; distinct by trace')
+        'program has at least 15 steps and (a) a header block with 5 or more fields and a raising call; distinct by '
+        'trace')
 ASSUMPTIONS = ['hash randomisation only affects str/bytes keys (ints hash to themselves), so the generator varies header '
                'names and values rather than setting codes',
                'exception messages are not compared (hpack puts object addresses into some)']
@@ -30,9 +35,102 @@ CHILD_SEEDS = ('1', '987654321')
 _children = None
 
 
+class FanLog:
+    """Minimal stand-in for a Pair: the steps and signatures of a one-endpoint scenario."""
+
+    def __init__(self):
+        self.steps = []
+        self.sigs = []
+        self.raised = []
+
+    def note(self, kind, name, arg, o):
+        if not o.ok:
+            self.raised.append(len(self.steps))
+        self.steps.append((kind, '-', name, (arg,)))
+        self.sigs.append(P.outcome_sig(o))
+
+
+def fan_transcript(ch, r):
+    """One endpoint with many streams and operations that touch all of them at once (an acknowledged
+    INITIAL_WINDOW_SIZE change makes every stream with acknowledged data emit a WINDOW_UPDATE; GOAWAY; clean-up),
+    header blocks with several repeated cookie fields, multi-key SETTINGS in both directions, and - for clients
+    built the way the documentation shows, H2Connection() without a configuration object - a change of the
+    connection's own config.header_encoding late in the run."""
+    from hpack import Encoder
+    from .. import wire
+    from ..drive import Endpoint, h2
+    log = FanLog()
+    client = ch.bool()
+    default_ctor = client and ch.bool()
+    if default_ctor:
+        ep = Endpoint(True, conn=h2.connection.H2Connection())
+        r.labels.add('fan:default-constructed-client')
+    else:
+        ep = Endpoint(client)
+    enc = Encoder()
+    cookies = [(b'cookie', ch.pick([b'a=1', b'b=2', b'c=3', b'dd=44', b'e=5'])) for _ in range(ch.int(0, 6))]
+    req = [(b':method', b'POST'), (b':scheme', b'https'), (b':authority', b'example.com'), (b':path', b'/')] + cookies
+    resp = [(b':status', b'200')] + cookies
+    log.note('call', 'initiate_connection', None, ep.call('initiate_connection'))
+    peer = [(k, v) for k, v in ((1, ch.pick([4096, 0, 256])), (3, ch.pick([100, 7])), (4, ch.pick([65535, 70000])),
+                                (5, ch.pick([16384, 20000])), (6, 9000), (0x21, ch.u16()), (0x99, 1)) if ch.chance(200)]
+    log.note('recv', 'settings', peer, ep.recv((b'' if client else wire.PREFACE) + wire.settings(peer) +
+                                               wire.settings(ack=True)))
+    k = ch.int(3, 14)
+    sids = [1 + 2 * i for i in range(k)]
+    for sid in sids:
+        if client:
+            log.note('call', 'send_headers', sid, ep.call('send_headers', sid, req))
+            log.note('recv', 'headers', sid, ep.recv(wire.headers(sid, enc.encode(resp))))
+        else:
+            log.note('recv', 'headers', sid, ep.recv(wire.headers(sid, enc.encode(req))))
+    total = 0
+    for sid in sids:
+        n = ch.pick([0, 100, 3000, 4000, 4500])
+        if total + n > 60000:
+            n = 0
+        total += n
+        if n:
+            log.note('recv', 'data', sid, ep.recv(wire.data(sid, b'd' * n)))
+            a = ch.pick([n, n, n // 2, 0])
+            if a:
+                log.note('call', 'acknowledge_received_data', sid, ep.call('acknowledge_received_data', a, sid))
+    new = {4: ch.pick([6000, 2000, 100, 0, 65535, 100000])}
+    if ch.bool():
+        new[3] = ch.int(1, 50)
+    if ch.bool():
+        new[6] = ch.pick([100, 65536])
+    log.note('call', 'update_settings', new, ep.call('update_settings', dict(new)))
+    log.note('recv', 'settings-ack', None, ep.recv(wire.settings(ack=True)))
+    if default_ctor and ch.bool():
+        ep.c.config.header_encoding = ch.pick(['utf-8', 'latin-1'])
+        r.labels.add('fan:own-config-changed')
+    for sid in sids[:ch.int(0, k)]:
+        how = ch.int(0, 2)
+        if how == 0:
+            log.note('call', 'reset_stream', sid, ep.call('reset_stream', sid))
+        elif how == 1:
+            log.note('recv', 'rst', sid, ep.recv(wire.rst_stream(sid, 8)))
+        else:
+            log.note('recv', 'trailers', sid, ep.recv(wire.headers(sid, enc.encode(cookies + [(b'x-t', b'1')]),
+                                                                   end_stream=True)))
+    _ = ep.c.open_inbound_streams, ep.c.open_outbound_streams
+    log.note('call', 'close_connection', None, ep.call('close_connection'))
+    r.labels.add('fan')
+    if len(cookies) >= 3:
+        r.labels.add('fan:>=3-cookie-fields')
+    return log
+
+
 def transcript(data):
     """-> (list of per-step digests, list of step descriptions, stats)."""
     ch = Chooser(data)
+    if data and data[0] & 3 == 3:
+        ch.u8()
+        r = Result()
+        p = fan_transcript(ch, r)
+        digs = [hashlib.blake2b(repr(sig).encode(), digest_size=6).hexdigest() for sig in p.sigs]
+        return digs, p, r
     r = Result()
     p = P.Pair(r, ID)
     p.handshake(ch)
@@ -110,6 +208,9 @@ def run_case(data):
                                                         describe(p, i)),
                       'step %d of %d differs between PYTHONHASHSEED=0 and %s' % (i, len(a), name))
             break
+    if 'fan' in r.labels:
+        r.nontrivial = len(p.steps) >= 15
+        return r
     big = any(s[0] == 'call' and s[2] in ('send_headers', 'push_stream') and len(s[3][-1]) >= 5 for s in p.steps)
     r.nontrivial = len(p.steps) >= 15 and big and bool(p.raised)
     return r
